@@ -1145,4 +1145,128 @@ theorem run_ok : ∀ (ops : List Op) (st : State), WF st → (∀ o ∈ ops, OpO
     obtain ⟨s2, h2⟩ := ih s1 (step_wf hwf h1) (fun o ho => hok o (by simp [ho]))
     exact ⟨s2, bind_eq_ok.2 ⟨s1, h1, h2⟩⟩
 
+/-! ### histories that only write and flush (no change of configuration) -/
+
+theorem run_chunks_sink : ∀ (ops : List Op) (st st' : State), WF st → (∀ o ∈ ops, ¬ IsConfig o) → run st ops = .ok st' →
+    st'.bufLen = st.bufLen ∧ sink st' = sink st ∧
+    ∃ new, st'.out = st.out ++ new ∧ ∀ c ∈ new, ChunkOK st.bufLen (sink st) c := by
+  intro ops
+  induction ops with
+  | nil => intro st st' _ _ h; simp [run] at h; subst h; exact ⟨rfl, rfl, [], by simp, by simp⟩
+  | cons o os ih =>
+    intro st st' hwf hnc h
+    obtain ⟨s1, h1, h2⟩ := run_cons h
+    have e1 := step_ext hwf (hnc o (by simp)) h1
+    obtain ⟨new1, ho1, hc1⟩ := e1.out
+    obtain ⟨hn2, hs2, new2, ho2, hc2⟩ := ih s1 st' e1.wf (fun o ho => hnc o (by simp [ho])) h2
+    have hs1 : sink s1 = sink st := sink_congr e1.hasFunc
+    refine ⟨hn2.trans e1.bufLen, hs2.trans hs1, new1 ++ new2, by rw [ho2, ho1, List.append_assoc], ?_⟩
+    intro c hc
+    rcases List.mem_append.1 hc with hm | hm
+    · exact hc1 c hm
+    · have := hc2 c hm; rwa [e1.bufLen, hs1] at this
+
+/-! ### terminals as the harness builds them -/
+
+theorem admissible_append : ∀ (a b : List Op) (st : State), Admissible st a →
+    (∀ s1, run st a = .ok s1 → Admissible s1 b) → Admissible st (a ++ b) := by
+  intro a
+  induction a with
+  | nil => intro b st _ h; exact h st rfl
+  | cons o os ih =>
+    intro b st ha hb
+    refine ⟨ha.1, ?_⟩
+    intro s1 h1
+    exact ih b s1 (ha.2 s1 h1) (fun s2 h2 => hb s2 (bind_eq_ok.2 ⟨s1, h1, h2⟩))
+
+def IsAttach (o : Op) : Prop := o = .setFd ∨ o = .setFunc
+
+theorem admissible_attach : ∀ (ops : List Op) (st : State), (∀ o ∈ ops, IsAttach o) → Admissible st ops := by
+  intro ops
+  induction ops with
+  | nil => intro _ _; trivial
+  | cons o os ih =>
+    intro st h
+    refine ⟨?_, fun s1 _ => ih s1 (fun o ho => h o (by simp [ho]))⟩
+    rcases h o (by simp) with rfl | rfl <;> trivial
+
+theorem step_attach_attached {st st' : State} {o : Op} (hwf : WF st) (ho : IsAttach o) (h : step st o = .ok st') :
+    Attached st' := by
+  rcases ho with rfl | rfl
+  · have e := step_setFd_ext hwf h
+    exact Or.inr (by rw [e.hasFd])
+  · have e := step_setFunc_ext hwf h
+    exact Or.inl (by rw [e.hasFunc]; exact (preFunc_facts st).2.2.2.1)
+
+theorem run_attached : ∀ (ops : List Op) (st st' : State), WF st → run st ops = .ok st' →
+    (Attached st ∨ ∃ o ∈ ops, IsAttach o) → Attached st' := by
+  intro ops
+  induction ops with
+  | nil =>
+    intro st st' _ h hat; simp [run] at h; subst h
+    rcases hat with h | ⟨o, ho, _⟩
+    · exact h
+    · simp at ho
+  | cons o os ih =>
+    intro st st' hwf h hat
+    obtain ⟨s1, h1, h2⟩ := run_cons h
+    apply ih s1 st' (step_wf hwf h1) h2
+    rcases hat with hat | ⟨o', ho', ha⟩
+    · exact Or.inl (step_attached hwf h1 hat)
+    · rcases List.mem_cons.1 ho' with rfl | hm
+      · exact Or.inl (step_attach_attached hwf ha h1)
+      · exact Or.inr ⟨o', hm, ha⟩
+
+def attachOps (useFunc useFd : Bool) : List Op :=
+  (if useFd then [Op.setFd] else []) ++ (if useFunc then [Op.setFunc] else [])
+
+theorem buildOps_eq (n : Nat) (f d early : Bool) :
+    buildOps n f d early = if early then Op.setbuf n :: attachOps f d
+      else attachOps f d ++ (if n ≠ 0 then [Op.setbuf n] else []) := rfl
+
+theorem attachOps_isAttach (f d : Bool) : ∀ o ∈ attachOps f d, IsAttach o := by
+  intro o ho
+  cases f <;> cases d <;> simp [attachOps, IsAttach] at ho ⊢ <;> (try rcases ho with rfl | rfl) <;> simp_all
+
+theorem attachOps_noSetbuf (f d : Bool) : NoSetbuf (attachOps f d) := by
+  intro o ho n hn
+  rcases attachOps_isAttach f d o ho with h | h <;> (subst h; cases hn)
+
+theorem attachOps_nonempty (f d : Bool) (h : f = true ∨ d = true) : ∃ o ∈ attachOps f d, IsAttach o := by
+  cases f <;> cases d <;> simp [attachOps, IsAttach] at h ⊢
+
+theorem init_wf : WF init := by unfold WF init; simp
+
+/-- The construction sequence of the harness respects the property's provisos. -/
+theorem admissible_build (n : Nat) (f d early : Bool) : Admissible init (buildOps n f d early) := by
+  rw [buildOps_eq]
+  cases early with
+  | true =>
+    simp only [if_true]
+    exact ⟨rfl, fun s1 _ => admissible_attach _ s1 (attachOps_isAttach f d)⟩
+  | false =>
+    simp only [Bool.false_eq_true, if_false]
+    apply admissible_append _ _ _ (admissible_attach _ _ (attachOps_isAttach f d))
+    intro s1 h1
+    split
+    · refine ⟨?_, fun _ _ => trivial⟩
+      have hn : s1.bufLen = 0 := (run_chunks _ _ _ init_wf (attachOps_noSetbuf f d) h1).1
+      exact (run_wf _ _ _ init_wf h1).1 hn
+    · trivial
+
+theorem build_attached (n : Nat) (f d early : Bool) (hsink : f = true ∨ d = true) (s : State)
+    (h : run init (buildOps n f d early) = .ok s) : WF s ∧ Attached s := by
+  refine ⟨run_wf _ _ _ init_wf h, run_attached _ _ _ init_wf h (Or.inr ?_)⟩
+  obtain ⟨o, ho, ha⟩ := attachOps_nonempty f d hsink
+  refine ⟨o, ?_, ha⟩
+  rw [buildOps_eq]
+  cases early <;> simp [ho]
+
+/-- What the construction requests: the driver's start-up strings, once. -/
+theorem written_build (n : Nat) (f d early : Bool) (hsink : f = true ∨ d = true) (ops : List Op) :
+    written {} (buildOps n f d early ++ ops) = startBytes ++ written { started := true } ops := by
+  rw [buildOps_eq]
+  by_cases hn : n = 0 <;> cases early <;> cases f <;> cases d <;>
+    simp [attachOps, written, requested, nextMode, hn] at hsink ⊢
+
 end Tickit.TermBuf
